@@ -6,6 +6,9 @@ package main
 // ParseConfig / NewRegistrationManager / OnReload / stats modules.
 
 import (
+	"time"
+	"sync"
+	"context"
 	"fmt"
 	"net"
 	"net/netip"
@@ -182,6 +185,31 @@ func housekeeping(rm *lib.RegistrationManager) {
 	}
 	step()
 	step()
+	// the worker settings of an accepted configuration are used when the ingest pipeline starts: start it, hand it a
+	// registration, request the stop (what main() does between start-up and SIGTERM)
+	ctx, cancel := context.WithCancel(context.Background())
+	regChan := make(chan interface{}, 1)
+	var wg sync.WaitGroup
+	wg.Add(1)
+	done := make(chan any, 1)
+	go func() {
+		defer func() { done <- recover() }()
+		rm.HandleRegUpdates(ctx, regChan, &wg)
+	}()
+	select {
+	case regChan <- m.Bytes():
+	default:
+	}
+	time.Sleep(2 * time.Millisecond)
+	cancel()
+	select {
+	case p := <-done:
+		if p != nil {
+			panic(fmt.Sprintf("ingest pipeline: %v", p))
+		}
+	case <-time.After(20 * time.Second):
+		// not a verdict here (C09 decides wind-down); leave the pipeline behind
+	}
 }
 
 func main() {
@@ -220,7 +248,7 @@ func main() {
 	miscKeys := []kv{
 		{"geoip_cc_db_path", []string{"", `"` + filepath.Join(dir, "missing.mmdb") + `"`, `"` + garbage + `"`}},
 		{"geoip_asn_db_path", []string{"", `"` + garbage + `"`}},
-		{"ingest_worker_count", []string{"", "0", "1", "-1"}},
+		{"ingest_worker_count", []string{"", "0", "1", "-1", "-10", "10"}},
 		{"enable_v4", []string{"", "true", "false"}},
 		{"enable_v6", []string{"true", "false"}},
 		{"covert_blocklist_public_addrs", []string{"", "true"}},
